@@ -28,6 +28,8 @@ where
     /// Create a new PolarizedFractalEfficiency indicator with a chained view, custom moving
     /// average and a window length
     pub fn new(view: V, moving_average: M, window_len: usize) -> Self {
+        // The path length is summed over `window_len - 2` steps.
+        assert!(window_len >= 3, "window_len must be >= 3");
         Self {
             view,
             moving_average,
